@@ -145,6 +145,7 @@ func runC14(c *ev.Ctx) {
 		}
 	}
 	c14Idle(c)
+	c14BackToBack(c)
 }
 
 var c14ev = []string{"F", "RA", "RB", "T", "C"}
@@ -387,4 +388,81 @@ func c14Idle(c *ev.Ctx) {
 		p.WaitTag(401, from)
 		w.close()
 	}
+}
+
+// c14BackToBack: request A and the Tflush naming it leave in ONE write, with
+// no wait for A to reach the backend. Whatever the receiver's goroutines do,
+// the flush was received after A: its Rflush may not be sent while A's backend
+// call is running, nor before it starts. Schedule-dependent: many rounds, with
+// scheduling jitter inside the backend.
+func c14BackToBack(c *ev.Ctx) {
+	rounds := c.Sz(2000, 60000)
+	w, ok := newConcWorld(1)
+	if !ok {
+		c.Inconclusive("C14 back-to-back world")
+		w.close()
+		return
+	}
+	defer w.close()
+	cc := w.conns[0]
+	fid, ok := cc.fidAt("/d/x", 'o', false)
+	if !ok {
+		c.Inconclusive("C14 back-to-back setup")
+		return
+	}
+	w.fs.SetJitter(c.Seed*31 + uint64(c.Shard) + 1)
+	p := cc.p
+	c.Begin("C14 back-to-back")
+	for i := 0; i < rounds; i++ {
+		if !c.Mine(i) {
+			continue
+		}
+		tagA, tagF := uint16(400+(i%100)*2), uint16(401+(i%100)*2)
+		from := p.NReplies()
+		mark := w.fs.NCalls()
+		var frames []byte
+		kind := []string{"read", "getattr", "write"}[i%3]
+		switch kind {
+		case "read":
+			frames = wire.Encode(wire.Tread, tagA, fid, u(0), u(4))
+		case "getattr":
+			frames = wire.Encode(wire.Tgetattr, tagA, fid, u(0x3fff))
+		default:
+			frames = wire.Encode(wire.Twrite, tagA, fid, u(0), []byte("zz"))
+		}
+		p.Expect(frames)
+		fl := wire.Encode(wire.Tflush, tagF, u(uint64(tagA)))
+		p.Expect(fl)
+		p.SendRaw(append(frames, fl...))
+		ra, okA, o, d := p.WaitTag(tagA, from)
+		if !okA {
+			hang(c, o, d, "C14:back-to-back:request-unanswered:"+kind, map[string]any{"round": i})
+			return
+		}
+		rf, okF, o, d := p.WaitTag(tagF, from)
+		if !okF {
+			hang(c, o, d, "C14:back-to-back:flush-unanswered:"+kind, map[string]any{"round": i})
+			return
+		}
+		_ = ra
+		if rf.Msg.Type != wire.Rflush {
+			c.Violation("C14:back-to-back:flush-answered-with-"+wire.TypeName(rf.Msg.Type), map[string]any{"round": i})
+			return
+		}
+		for _, cl := range w.fs.Calls(mark) {
+			if cl.Method == "Close" || cl.Method == "Renamed" {
+				continue
+			}
+			if cl.Enter > rf.Seq {
+				c.Violation("C14:back-to-back:backend-call-for-flushed-request-begins-after-Rflush:"+kind, map[string]any{"round": i, "call": cl.String(), "rflush_at": rf.Seq})
+				return
+			}
+			if cl.Exit == 0 || cl.Exit > rf.Seq {
+				c.Violation("C14:back-to-back:Rflush-while-flushed-request-still-in-backend:"+kind, map[string]any{"round": i, "call": cl.String(), "rflush_at": rf.Seq})
+				return
+			}
+		}
+		c.Count("back_to_back_rounds", 1)
+	}
+	c.Case("back-to-back", true)
 }
